@@ -351,6 +351,9 @@ func (w *World) checkStep(prev, cur *snapshot, res StepResult, calls []simvk.Cal
 				if b.Mapped != m.Mapped() {
 					fs.add("C14", "block-mapped-state-diverges", "%s block id %d believes mapped=%v but device m%d mapped=%v (after %q)", lname, b.ID, b.Mapped, mid, m.Mapped(), op.String())
 				}
+				if m.Mapped() && b.MapReferences == 0 && !b.ExtraMapping {
+					fs.add("C14", "mapping-left-behind", "%s block id %d: m%d is still mapped on the device although there are no map references and no hysteresis mapping (after %q)", lname, b.ID, mid, op.String())
+				}
 				if want > 0 && !m.Mapped() {
 					fs.add("C14", "mapped-allocation-unmapped-on-device", "m%d has %d outstanding mappings but is not mapped on the device (after %q)", mid, want, op.String())
 				}
@@ -518,7 +521,7 @@ func (w *World) checkStep(prev, cur *snapshot, res StepResult, calls []simvk.Cal
 			}
 			// forward only
 			si, dj := w.blockIndex(cur, mv.srcMem), w.blockIndex(cur, mv.dstMem)
-			if !(dj < si || (mv.srcMem == mv.dstMem && mv.dstOff < mv.srcOff)) {
+			if si >= 0 && dj >= 0 && !(dj < si || (mv.srcMem == mv.dstMem && mv.dstOff < mv.srcOff)) {
 				fs.add("C15", "move-not-forward", "move %d goes from block #%d offset %d to block #%d offset %d", i, si, mv.srcOff, dj, mv.dstOff)
 			}
 		}
